@@ -202,10 +202,27 @@ def shard(desc):
             seen.add(key)
             sh.failures.append(core.Failure(key, what, case))
 
+    import signal
+
+    class _Slow(Exception):
+        pass
+
+    def _alarm(signum, frame):
+        raise _Slow()
+
+    signal.signal(signal.SIGALRM, _alarm)
     for item in desc["items"]:
         d = datetime.date.fromisoformat(item["date"])
         try:
-            params, functions = set_up_policy_environment(d)
+            signal.alarm(90)  # a set-up normally takes 1-3 s; a budget hit is "inconclusive", not a verdict
+            try:
+                params, functions = set_up_policy_environment(d)
+            finally:
+                signal.alarm(0)
+        except _Slow:
+            sh.classes["setup-exceeded-90s(inconclusive)"] += 1
+            sh.notes.append(f"{d}: set_up_policy_environment did not finish within 90 s (inconclusive)")
+            continue
         except Exception as e:  # noqa: BLE001
             report(f"setup-raises:{type(e).__name__}", f"{d}: set_up_policy_environment raises {type(e).__name__}: {e!s:.150}",
                    {"date": str(d), "kind": "env"})
